@@ -3,6 +3,9 @@ package main
 import (
 	"bytes"
 	"fmt"
+	"os"
+	"os/signal"
+	"syscall"
 
 	"github.com/hedzr/logg/slog"
 
@@ -231,6 +234,130 @@ func c13addOnly(c *Ctx) {
 		c.R.NonTrivial("addonly", idx)
 		if c.R.WantSample() {
 			c.R.Sample(idx, desc, "every destination of the record's class was handed it once; reports about the failure only at warning destinations")
+		}
+	})
+}
+
+func init() { reg("C13", "fsizelimit", c13fsizeLimit) }
+
+// c13fsizeLimit: a log file made by the package's own NewFileWriter hits a REAL, transient failure of the operating
+// system - the process's file size limit (RLIMIT_FSIZE, SIGXFSZ ignored: write returns EFBIG), as a full disk or an
+// exhausted quota would - for one or two records, then the limit is lifted again. Oracle: the calls return; the recording
+// destination behind the file holds every record once; while the file fails there is at most one diagnostic per record
+// (at the warning destination); once the limit is lifted, the records are IN THE FILE again and draw no diagnostic.
+func c13fsizeLimit(c *Ctx) {
+	slog.SetFlags((slog.GetFlags() | slog.LnoInterrupt) &^ slog.Lcaller)
+	signal.Ignore(syscall.SIGXFSZ)
+	var old syscall.Rlimit
+	if err := syscall.Getrlimit(syscall.RLIMIT_FSIZE, &old); err != nil {
+		c.R.Add("rlimit_fsize_not_available", 1)
+		return
+	}
+	log := mon.NewLog()
+	c.Each(func(idx int, r *gen.R) {
+		f := Format(idx % 3)
+		nFail := 1 + (idx/3)%2
+		dir, err := os.MkdirTemp("", "c13-fsz-*")
+		if err != nil {
+			return
+		}
+		defer os.RemoveAll(dir)
+		path := dir + "/app.log"
+		fw := slog.NewFileWriter(path)
+		w0 := mon.New(log, "W0", mon.ShapePlain)
+		we := mon.New(log, "WE", mon.ShapePlain)
+		lg := slog.New(fmt.Sprintf("fsz%d", idx)).Root()
+		if (idx/6)%2 == 1 {
+			lg = lg.New("kid")
+		}
+		lg.SetWriter(fw).AddWriter(w0).SetErrorWriter(we)
+		setFormat(lg, f)
+		lg.SetLevel(slog.AlwaysLevel)
+		desc := map[string]any{"format": f.String(), "records_while_the_limit_is_in_force": nFail, "destination": "NewFileWriter file, then a recording one"}
+		type step struct {
+			limited bool
+		}
+		steps := []step{{false}, {false}}
+		for i := 0; i < nFail; i++ {
+			steps = append(steps, step{true})
+		}
+		steps = append(steps, step{false}, step{false}, step{false})
+		var ids []string
+		var expectInFile []string
+		for ci, st := range steps {
+			id := fmt.Sprintf("#fsz%d-%d#", idx, ci)
+			ids = append(ids, id)
+			log.Reset()
+			if st.limited {
+				fi, _ := os.Stat(path)
+				lim := syscall.Rlimit{Cur: uint64(fi.Size()) + 5, Max: old.Max}
+				if err := syscall.Setrlimit(syscall.RLIMIT_FSIZE, &lim); err != nil {
+					c.R.Add("rlimit_fsize_not_available", 1)
+					return
+				}
+			} else {
+				expectInFile = append(expectInFile, id)
+			}
+			panicked := ""
+			func() {
+				defer func() {
+					if e := recover(); e != nil {
+						panicked = fmt.Sprint(e)
+					}
+				}()
+				lg.Info("rec "+id, "k", ci, "pad", "0123456789012345678901234567890123456789")
+			}()
+			if st.limited {
+				_ = syscall.Setrlimit(syscall.RLIMIT_FSIZE, &old) // (lifted again before anything else is written anywhere)
+			}
+			c.R.JournalNote(fmt.Sprintf("fsizelimit %v %s limited=%v", desc, id, st.limited))
+			sig := func(clause string) string { return "C13/" + clause + "/file-size-limit" }
+			if panicked != "" {
+				c.R.Violation(idx, "returns-normally", sig("returns-normally"), "the logging call panicked: "+panicked, desc)
+				return
+			}
+			own, diags := 0, 0
+			for _, e := range log.Events() {
+				if e.Kind != mon.EvWrite {
+					continue
+				}
+				if bytes.Contains(e.Data, []byte(diagText)) {
+					diags++
+					if e.W != "WE" {
+						c.R.Violation(idx, "diagnostic", sig("diagnostic"), fmt.Sprintf("a report about the failing file went to %s, which is no warning destination", e.W), desc)
+						return
+					}
+				} else if e.W == "W0" && bytes.Contains(e.Data, []byte(id)) {
+					own++
+				}
+			}
+			if own != 1 {
+				c.R.Violation(idx, "other-destinations", sig("other-destinations"), fmt.Sprintf("record %d (file size limit in force: %v): the recording destination behind the file got it %d time(s)", ci, st.limited, own), desc)
+				return
+			}
+			if diags > 1 || (diags > 0 && !st.limited) {
+				c.R.Violation(idx, "recovery", sig("recovery"), fmt.Sprintf("record %d (file size limit in force: %v; lifted %d record(s) ago): %d report(s) about a failing destination", ci, st.limited, ci-(1+nFail), diags), desc)
+				return
+			}
+			if st.limited {
+				c.R.Add("calls_with_a_failing_write", 1)
+				if diags == 1 {
+					c.R.Add("diagnostic_records_seen", 1)
+				}
+			}
+		}
+		_ = fw.Close()
+		b, _ := os.ReadFile(path)
+		for _, id := range expectInFile {
+			if bytes.Count(b, []byte(id)) != 1 {
+				c.R.Violation(idx, "recovery", "C13/recovery/file-size-limit", fmt.Sprintf("the log file holds record %s %d time(s), expected once (the file size limit was in force for %d record(s) in between and lifted again); file: %s", id, bytes.Count(b, []byte(id)), nFail, q(clip(string(b), 700))), desc)
+				return
+			}
+		}
+		c.R.Add("file_size_limit_cases_judged", 1)
+		c.R.NonTrivial("fsizelimit", idx)
+		if c.R.WantSample() {
+			c.R.Sample(idx, desc, "every call returned; the recording destination got every record once; after the limit was lifted the file holds the later records and nothing is reported any more")
 		}
 	})
 }
